@@ -132,15 +132,15 @@ Qed.
 (* ---------- the structure step (lines 126-180) ---------- *)
 Definition composed (ds : list tdef) : tdef := fold_right compose star ds.
 
-Theorem bind_on_first_use n x tm : aget tm n = None -> structure_step (SName n) x tm = SOk (aset tm n x).
+Theorem bind_on_first_use n x tm : aget tm n = None -> structure_step (SName n) x tm = StOk (aset tm n x).
 Proof. cbn. now intros ->. Qed.
 
 Theorem equal_on_later_use n x tm prev :
-  aget tm n = Some prev -> structure_step (SName n) x tm = if tdef_eqb prev x then SOk tm else SNo.
+  aget tm n = Some prev -> structure_step (SName n) x tm = if tdef_eqb prev x then StOk tm else StNo.
 Proof. cbn. now intros ->. Qed.
 
 Theorem later_use_accepts_iff_identical n x tm prev :
-  aget tm n = Some prev -> (structure_step (SName n) x tm = SOk tm <-> x = prev).
+  aget tm n = Some prev -> (structure_step (SName n) x tm = StOk tm <-> x = prev).
 Proof.
   intros H. rewrite (equal_on_later_use _ _ _ _ H). destruct (tdef_eqb prev x) eqn:E.
   - apply tdef_eqb_eq in E. split; auto.
@@ -149,8 +149,8 @@ Qed.
 
 Theorem composite_exact names ds x tm :
   lookup_all tm names = Some ds ->
-  (structure_step (SComp false false names) x tm = SOk tm <-> x = composed ds) /\
-  (structure_step (SComp false false names) x tm = SOk tm \/ structure_step (SComp false false names) x tm = SNo).
+  (structure_step (SComp false false names) x tm = StOk tm <-> x = composed ds) /\
+  (structure_step (SComp false false names) x tm = StOk tm \/ structure_step (SComp false false names) x tm = StNo).
 Proof.
   intros H. cbn [structure_step]. rewrite H. rewrite compose_impl_spec. fold (composed ds).
   destruct (tdef_eqb x (composed ds)) eqn:E.
@@ -160,8 +160,8 @@ Qed.
 
 Theorem prefix_exact names ds x tm :
   lookup_all tm names = Some ds ->
-  (structure_step (SComp true false names) x tm = SOk tm <-> Prefix (composed ds) x) /\
-  (structure_step (SComp true false names) x tm = SOk tm \/ structure_step (SComp true false names) x tm = SNo).
+  (structure_step (SComp true false names) x tm = StOk tm <-> Prefix (composed ds) x) /\
+  (structure_step (SComp true false names) x tm = StOk tm \/ structure_step (SComp true false names) x tm = StNo).
 Proof.
   intros H. cbn [structure_step]. rewrite H. rewrite compose_impl_spec. fold (composed ds).
   destruct (is_prefix (composed ds) x) eqn:E.
@@ -171,8 +171,8 @@ Qed.
 
 Theorem suffix_form_exact names ds x tm :
   lookup_all tm names = Some ds ->
-  (structure_step (SComp false true names) x tm = SOk tm <-> exists u, x = compose u (composed ds)) /\
-  (structure_step (SComp false true names) x tm = SOk tm \/ structure_step (SComp false true names) x tm = SNo).
+  (structure_step (SComp false true names) x tm = StOk tm <-> exists u, x = compose u (composed ds)) /\
+  (structure_step (SComp false true names) x tm = StOk tm \/ structure_step (SComp false true names) x tm = StNo).
 Proof.
   intros H. cbn [structure_step]. rewrite H. rewrite compose_impl_spec. fold (composed ds).
   destruct (suffix_check (composed ds) x) eqn:E.
@@ -181,7 +181,7 @@ Proof.
 Qed.
 
 Theorem unbound_name_raises pre suf names x tm :
-  lookup_all tm names = None -> structure_step (SComp pre suf names) x tm = SRaise.
+  lookup_all tm names = None -> structure_step (SComp pre suf names) x tm = StRaise.
 Proof. intros H. cbn [structure_step]. now rewrite H. Qed.
 
 Lemma lookup_all_none_iff tm names : lookup_all tm names = None <-> exists n, In n names /\ aget tm n = None.
